@@ -19,7 +19,7 @@ import scipy.linalg
 import scipy.sparse as sps
 import scipy.sparse.linalg
 
-from ..common import q, call_impl
+from ..common import q, call_impl, vary_layout, frozen
 from .c07 import enc, dec, dense, _Stub, model_balanced
 
 RULE = ("streams: dense (n 2..6; real/complex x Hermitian/general x standard/generalised x 4 sorting functions; response + "
@@ -332,7 +332,8 @@ def run_impl(c):
     with warnings.catch_warnings():
         warnings.simplefilter("ignore")
         sp = c.stream == "sparse"
-        conv = (lambda M: {"csc": sps.csc_matrix, "csr": sps.csr_matrix}[c.fmt](M)) if sp else (lambda M: M.copy())
+        conv = (lambda M: {"csc": sps.csc_matrix, "csr": sps.csr_matrix}[c.fmt](M)) if sp else \
+            (lambda M: vary_layout(M.copy(), (c.name, M.shape, float(np.abs(M).sum()))))   # C / Fortran order / transposed view
         sigs = [pm.Signal("A", conv(c.A))]
         if c.B is not None:
             sigs.append(pm.Signal("B", conv(c.B)))
@@ -353,8 +354,10 @@ def run_impl(c):
             if c.sigma is not None:
                 kw["sigma"] = c.sigma
         m = pm.EigenSolve(sigs, **kw)
+        snaps = [None if sp else frozen(sg.state) for sg in sigs]
         with Recorder() as rec:
             m.response()
+        out["input_clobbered"] = (not sp) and any(frozen(sg.state) != sn for sg, sn in zip(sigs, snaps))
         out["calls"] = rec.calls
         out["isort"] = isorts[-1] if isorts else None
         out["W"], out["Q"] = np.array(m.sig_out[0].state), np.array(m.sig_out[1].state)
@@ -526,6 +529,8 @@ def oracle(c, out):
     Bm = np.eye(c.n) if B is None else B
     W, Q = out["W"], out["Q"]
     scale = max(1.0, float(np.abs(A).max())) if not getattr(c, "units", None) else float(np.abs(A).max())
+    if out.get("input_clobbered"):
+        return "EigenSolve.response() wrote into the array held by one of its input signals"
     if Q.shape[0] != c.n or Q.shape[1] != W.size:
         return f"shapes: W {W.shape}, Q {Q.shape}"
     if c.stream == "dense" and W.size != c.n:
